@@ -198,6 +198,10 @@ func verifyWithPkBytes(b, msg []byte, sig groupsig.Signature, both bool) (r1, r2
 type cand struct {
 	family string
 	b      []byte
+	// other: the candidate was made for a different message or key, so by the property's statement it must
+	// be rejected whatever its bytes are (otherwise an implementation whose Sign ignores part of the message
+	// would make it byte-identical to the honest signature and pass the byte-equality oracle).
+	other bool
 }
 
 // parse-level differential for G1: the decoder accepts only curve points and re-encodes them faithfully.
@@ -243,9 +247,9 @@ func checkG1Parse(t fataler, b []byte) string {
 			t.Fatalf("G1.Unmarshal accepted the off-curve pair %x", b)
 		}
 	case ref.EncOutOfRange:
-		if err == nil && !stats.IsKnown(fRange) {
-			t.Fatalf("G1.Unmarshal accepted %x although a coordinate is >= p", b)
-		}
+		// whether the range check lives in bn256 or in groupsig is not the property's business: the
+		// signature pipeline is asserted in runSigCase; here only record what the decoder does
+		stats.Class(fmt.Sprintf("g1_parse:out_of_range:accepted=%v", err == nil))
 	case ref.EncBadLength:
 		if len(b) < 64 && err == nil {
 			t.Fatalf("G1.Unmarshal accepted %d bytes", len(b))
@@ -296,9 +300,7 @@ func checkG2Parse(t fataler, b []byte) string {
 			t.Fatalf("G2.Unmarshal accepted the off-curve value %x", b)
 		}
 	case ref.EncOutOfRange:
-		if err == nil && !stats.IsKnown(fRange) {
-			t.Fatalf("G2.Unmarshal accepted %x although a coordinate is >= p", b)
-		}
+		stats.Class(fmt.Sprintf("g2_parse:out_of_range:accepted=%v", err == nil))
 	case ref.EncBadLength:
 		if len(b) < 128 && err == nil {
 			t.Fatalf("G2.Unmarshal accepted %d bytes", len(b))
@@ -371,7 +373,7 @@ func randomTwistPoint(re, im *big.Int, neg bool) ref.G2Pt {
 
 func sigCandidates(t *rapid.T, e *sigEnv) []cand {
 	var cs []cand
-	add := func(f string, b []byte) { cs = append(cs, cand{f, b}) }
+	add := func(f string, b []byte) { cs = append(cs, cand{family: f, b: b}) }
 	S, canon := e.S, e.canon
 	neg := ref.G1Encode(ref.G1Neg(S))
 
@@ -388,9 +390,11 @@ func sigCandidates(t *rapid.T, e *sigEnv) []cand {
 	sOtherMsg := groupsig.Sign(e.sk, msg2)
 	sOtherKey := groupsig.Sign(sk2, e.msg)
 	sOtherBoth := groupsig.Sign(sk2, msg2)
-	add("other_msg_"+rel, sOtherMsg.Serialize())
-	add("other_key", sOtherKey.Serialize())
-	add("other_key_and_msg", sOtherBoth.Serialize())
+	msgDiffers := !bytes.Equal(msg2, e.msg)
+	keyDiffers := sk2.GetBigInt().Cmp(e.skInt) != 0
+	cs = append(cs, cand{"other_msg_" + rel, sOtherMsg.Serialize(), msgDiffers})
+	cs = append(cs, cand{"other_key", sOtherKey.Serialize(), keyDiffers})
+	cs = append(cs, cand{"other_key_and_msg", sOtherBoth.Serialize(), msgDiffers && keyDiffers}) // one differing alone could cancel only by collision
 	if o, cls := ref.G1DecodeStrict(sOtherMsg.Serialize()); cls == ref.EncPoint {
 		add("sum_with_other_msg", ref.G1Encode(ref.G1Add(S, o)))
 	}
@@ -487,7 +491,7 @@ func sigCandidates(t *rapid.T, e *sigEnv) []cand {
 func runSigCase(t fataler, e *sigEnv, cs []cand) {
 	pkWire := groupsig.ByteToPublicKey(e.pk.Serialize()) // the key as a verifier holds it
 	for _, c := range cs {
-		want := bytes.Equal(c.b, e.canon)
+		want := bytes.Equal(c.b, e.canon) && !c.other
 		_, strict := ref.G1DecodeStrict(c.b)
 		wellFormed := strict == ref.EncPoint || strict == ref.EncIdentity
 		r1, r2, pn := verifySig(pkWire, e.msg, c.b, want || !wellFormed)
@@ -541,7 +545,7 @@ func lenBucket(n int) int {
 
 func pkCandidates(t *rapid.T, e *sigEnv) []cand {
 	var cs []cand
-	add := func(f string, b []byte) { cs = append(cs, cand{f, b}) }
+	add := func(f string, b []byte) { cs = append(cs, cand{family: f, b: b}) }
 	canon := e.pk.Serialize()
 	PK, _ := ref.G2DecodeStrict(canon)
 	neg := ref.G2Encode(ref.G2Neg(PK))
@@ -555,7 +559,7 @@ func pkCandidates(t *rapid.T, e *sigEnv) []cand {
 	add("generator", cp(g2genB))
 	sk2 := genSeckey(t, "sk2")
 	pk2b := groupsig.GeneratePubkey(sk2).Serialize()
-	add("other_key", pk2b)
+	cs = append(cs, cand{"other_key", pk2b, sk2.GetBigInt().Cmp(e.skInt) != 0})
 	if o, cls := ref.G2DecodeStrict(pk2b); cls == ref.EncPoint {
 		add("sum_with_other_key", ref.G2Encode(ref.G2Add(PK, o)))
 	}
@@ -635,6 +639,8 @@ func runPkCase(t fataler, e *sigEnv, cs []cand) {
 			sameElem = true
 		}
 		switch {
+		case c.other && (r1 || r2):
+			t.Fatalf("[%s] signature verified under the public key of a different secret key: pk %x sk=%x msg=%x", c.family, c.b, e.skInt, e.msg)
 		case bytes.Equal(c.b, canon):
 			if !r1 || !r2 {
 				t.Fatalf("[%s] honest signature rejected under the honest public key bytes (ByteToPublicKey=%v, Deserialize=%v) pk=%x sk=%x msg=%x", c.family, r1, r2, c.b, e.skInt, e.msg)
@@ -1022,7 +1028,7 @@ func FuzzVerifySigBytes(f *testing.F) {
 			key = "fuzzsig:" + string(b)
 		}
 		stats.Case(key, "law:fuzz_sig_bytes", "fuzzsig:"+cls)
-		runSigCase(t, x.e, []cand{{"fuzz", b}})
+		runSigCase(t, x.e, []cand{{family: "fuzz", b: b}})
 	})
 }
 
@@ -1049,6 +1055,6 @@ func FuzzPubkeyDeserialize(f *testing.F) {
 			key = "fuzzpk:" + string(b)
 		}
 		stats.Case(key, "law:fuzz_pubkey_bytes", "fuzzpk:"+cls)
-		runPkCase(t, x.e, []cand{{"fuzz", b}})
+		runPkCase(t, x.e, []cand{{family: "fuzz", b: b}})
 	})
 }
